@@ -426,12 +426,39 @@ func (e *Engine) setupTime() {
 		}
 		return tuple{e.fromGoTime(t), e.errNil()}
 	}
-	x["time.Since"] = func(e *Engine, fr *frame, a []value) value {
-		ns, ok := e.timeNs(a[0])
-		if !ok {
-			return e.callFn(e.prog.LookupMethod(e.namedType("time", "Time"), nil, "Sub"), []value{e.timeValue(e.clock), a[0]})
+	// Sub on instants without a monotonic reading and with concrete nanosecond
+	// parts: (secA-secB)*1e9 + (nsecA-nsecB), seconds possibly symbolic. The
+	// saturation of the real Sub at +-292 years is outside the model.
+	simpleSub := func(e *Engine, t, u value) (*Term, bool) {
+		ts, ok1 := t.(structV)
+		us, ok2 := u.(structV)
+		if !ok1 || !ok2 {
+			return nil, false
 		}
-		return BV(64, uint64(e.clock-ns))
+		tw, tx := ts[0].(*Term), ts[1].(*Term)
+		uw, ux := us[0].(*Term), us[1].(*Term)
+		if !tw.Const || !uw.Const || tw.V&(1<<63) != 0 || uw.V&(1<<63) != 0 {
+			return nil, false
+		}
+		dn := int64(tw.V&(1<<30-1)) - int64(uw.V&(1<<30-1))
+		return Add(Mul(Sub(tx, ux), BV(64, 1000000000)), BV(64, uint64(dn))), true
+	}
+	x["(time.Time).Sub"] = func(e *Engine, fr *frame, a []value) value {
+		if d, ok := simpleSub(e, a[0], a[1]); ok {
+			return d
+		}
+		e.end("unsupported", "time.Sub on instants with symbolic nanoseconds or monotonic readings")
+		return nil
+	}
+	x["time.Since"] = func(e *Engine, fr *frame, a []value) value {
+		if ns, ok := e.timeNs(a[0]); ok {
+			return BV(64, uint64(e.clock-ns))
+		}
+		if d, ok := simpleSub(e, e.timeValue(e.clock), a[0]); ok {
+			return d
+		}
+		e.end("unsupported", "time.Since on an instant with symbolic nanoseconds")
+		return nil
 	}
 }
 
